@@ -30,12 +30,25 @@ META = {
              "in Kalman form, polynomial identities in the noise precision checked by TLC coefficient by coefficient; the harness first demonstrates "
              "with an independent CGLS that n iterations miss the exact solution by > 1e-4 while the requested setting reaches 1e-8, then requires "
              "both interfaces of LinearRTO (current states zero and far away, successive draws) and UGLA, with maxit / tol handed to the "
-             "constructor or assigned afterwards, to reproduce the exact mean / covariance (rtol 1e-6)."),
+             "constructor or assigned afterwards, to reproduce the exact mean / covariance (rtol 1e-6).  "
+             "Nested updates (LinGaussMut.tla, EXTENDS LinGauss and reuses the two versions of every input of its part reassign): the target stays the "
+             "SAME posterior object, its prior mean / prior parameter / noise parameter / data (UGLA: prior location / scale) are assigned through the "
+             "public setters of the nested objects, then sampler.reinitialize() (experimental) or a new sampler for the same object (legacy): every "
+             "transition is the exact draw of the values assigned NOW (invariant MutDrawIsCurrentDraw over the state machine MutSet / MutReinit / "
+             "MutDraw, deviation ReinitSkipsSameTarget refuted); warm chains through all fields and back, all fields at once, single fields.  "
+             "Process history (LinGaussProc.tla): lists of items of DIFFERENT configuration - GMRF on a 1-D grid with k*k nodes and on a k x k grid "
+             "of every order, items that differ in ONE parameter (precision, order, n, mean, data, noise, operator, keyword under which the same matrix is "
+             "handed in, model kind), bystanders with periodic / neumann boundary, LMRF, CMRF - built, prepared and drawn from in ONE process in every "
+             "interleaving (Build / Prep / Draw per item); invariant ItemsIndependent (the draw of an item is the posterior of its OWN configuration), "
+             "deviations StructureSharedByDimBcOrder / FactorSharedByFamilyAndSize (a table keyed by a projection of the configuration outlives the "
+             "objects) refuted; every behaviour is replayed in a fresh python process and compared with the exact posterior of each item."),
     "note": ("Bounded sizes (n, m <= 3; ill-conditioned part n <= 12, m = 1), precisions on an integer/dyadic lattice; inner CGLS run with maxit=60, tol=1e-13 "
              "('run to convergence'; ill-conditioned part: maxit = 4n+8, tol = 1e-20, comparison 1e-6, kappa = 1/(b + sigma^2) evaluated by the harness "
              "from TLC's exact rationals); RegularizedLinearRTO not covered (not a Gaussian draw); GMRF priors with zero boundary "
              "condition only (the others are documented as inexact); point at which UGLA evaluates its weights (x_k or x_k - "
-             "location) is not documented: either is accepted and recorded as an observation."),
+             "location) is not documented: either is accepted and recorded as an observation; what a sampler draws between an update of its target "
+             "and the reinitialisation is not documented (observed only); process-history lists: n <= 4 (2-D grid 2 x 2), one likelihood; fresh process = "
+             "forked child of a pristine interpreter that has only imported cuqi and the helpers."),
     "technique": "TLA+ spec (LinGauss) model-checked with TLC; TLC-emitted cases replayed into the real samplers with scripted normals",
 }
 
@@ -744,13 +757,21 @@ def _run(ctx, seq_jobs, hard_jobs, mut_jobs, proc_jobs):
     ctx.sample({"case": {k: c[k] for k in ("kind", "n", "m", "A", "y", "noise", "xk", "loc", "beta_q", "scale_q", "w_q", "mu_q", "LamInv_q")}})
     ctx.rule = ("one case per configuration emitted by TLC from LinGauss.tla (parts rto, ugla) with exact Lambda, rhs, mu_post, Lambda^-1; "
                 "non-trivial = distinct (configuration, sampler interface, current state) affine read-off or stacked-operator check; "
-                "part hard: one case per ill-conditioned configuration, counted only if the vacuity guard (independent CGLS: n iterations miss, requested setting converges) holds")
+                "part hard: one case per ill-conditioned configuration, counted only if the vacuity guard (independent CGLS: n iterations miss, requested setting converges) holds; "
+                "LinGaussMut: one case per (configuration, path MutSet / MutReinit / MutDraw, interface, assignment reached); "
+                "LinGaussProc: one case per (behaviour = order of Build / Prep / Draw events in one fresh process, item, interface)")
     ctx.exhaustive = True
     ctx.traces = ntr
     ctx.assumptions += ["inner CGLS with maxit=%d, tol=%g counts as 'run to convergence'" % (MAXIT, TOL),
                         "sqrtcov convention cov = S S^T (code and tests/test_distribution.py; the docstring says S^T S)",
                         "sizes and the integer/dyadic lattice bounded by LinGauss.*.cfg",
-                        "UGLA local Gaussian: prior block N(location, scale (D^T W D)^-1), W from the UGLA paper / Lk_fun docstring comment"]
+                        "UGLA local Gaussian: prior block N(location, scale (D^T W D)^-1), W from the UGLA paper / Lk_fun docstring comment",
+                        "LinGaussMut: values are assigned to post.prior, post.likelihood.distribution, post.likelihood.data (the objects the posterior holds); "
+                        "Sampler.reinitialize() 'initializes the sampler again' (docstring) = precomputes from what the target describes then; a setter that "
+                        "refuses a value is an accepted outcome; draws between an update and the reinitialisation are observed, not asserted",
+                        "LinGaussProc: 2-D GMRF structure [I (x) D1 ; D1 (x) I] ('differences in both horizontal and vertical directions'; C20 Kron2D), "
+                        "precision delta (I (x) P1 + P1 (x) I); every behaviour runs in a child forked from a pristine interpreter (only imports done): "
+                        "the state of a new interpreter right after `import cuqi`"]
 
 
 def replay(ctx, case):
